@@ -31,6 +31,7 @@ pub fn requirements(tier: Tier) -> Vec<(&'static str, u64)> {
         ("must-reject-confirmed:Purl", 1_000_000),
         ("typed:unknown-type", 25),
         ("typed:maven-no-namespace", 50),
+        ("exhaustive:scalar-x-restricted-slot", 1_112_064 * 22),
     ];
     for k in FAULT_KINDS {
         for inst in ["String", "SmallString", "Purl"] {
@@ -165,6 +166,15 @@ pub fn run(ctx: &mut Ctx) {
     let (total, name) = gen::for_each_g1(quick, w, n, &mut f);
     if ctx.worker == 0 {
         ctx.st.exhaustive.push(json!({"name": format!("{name}; every string the recogniser classifies MustReject must be refused (and with the assigned error when it has a single defect class)"), "size": total, "completed": true, "instantiations": 3}));
+    }
+    // every Unicode scalar, raw and percent-encoded, in every syntactic slot whose alphabet is
+    // restricted (scheme, type, key, checksum algorithm and digest, the two digits of an escape)
+    let n = gen::for_each_slot_string(ctx.worker, ctx.nworkers, &mut |s: &str| {
+        all_insts(ctx, s);
+    });
+    ctx.st.add("exhaustive:scalar-x-restricted-slot", n);
+    if ctx.worker == 0 {
+        ctx.st.exhaustive.push(json!({"name": "every Unicode scalar, raw and percent-encoded, in 11 slots with a restricted alphabet (scheme, type, key, checksum algorithm / digest, escape digits)", "size": 1_112_064u64 * 22, "completed": true, "instantiations": 3}));
     }
     // error clause: single faults injected into legal spellings
     let mut r = ctx.rng("c05.g3");
